@@ -124,8 +124,8 @@ func (h *harness) replayLine(l string) bool {
 		}
 		h.decodeCompare("replay", doc, f[1] == "11", unBase(f[2]), nil)
 		return true
-	case f[0] == "jl.write" && len(f) == 6:
-		qs, ok := parseWireGQuads(f[5])
+	case f[0] == "jl.write" && len(f) == 7:
+		qs, ok := parseWireGQuads(f[6])
 		if !ok {
 			return false
 		}
@@ -145,6 +145,13 @@ func (h *harness) replayLine(l string) bool {
 				return false
 			}
 			ch.context = cj
+		}
+		if f[5] != "-" {
+			lj, err := parseWire(f[5])
+			if err != nil {
+				return false
+			}
+			ch.local = lj
 		}
 		h.writeOne(dataset{quads: qs, feat: map[string]bool{"replay": true}}, ch, nil, false)
 		return true
